@@ -26,6 +26,9 @@ type State struct {
 	wf    map[string]bool
 	held  map[string]string // lock ghost: mutex key -> "w" | "r"
 	ghost map[string]Value  // named snapshot values (lets)
+	memo  map[string]string // named sub-terms (e.g. Int value of a byte term)
+	writes  map[string][]writeRec // heap -> locations written on this path
+	noframe map[string]bool       // heaps with writes at unknown locations
 }
 
 func (s *State) clone() *State {
@@ -47,6 +50,24 @@ func (s *State) clone() *State {
 	}
 	for k, v := range s.held {
 		n.held[k] = v
+	}
+	if s.writes != nil {
+		n.writes = make(map[string][]writeRec, len(s.writes))
+		for k, v := range s.writes {
+			n.writes[k] = v
+		}
+	}
+	if s.noframe != nil {
+		n.noframe = make(map[string]bool, len(s.noframe))
+		for k, v := range s.noframe {
+			n.noframe[k] = v
+		}
+	}
+	if s.memo != nil {
+		n.memo = make(map[string]string, len(s.memo))
+		for k, v := range s.memo {
+			n.memo[k] = v
+		}
 	}
 	for k, v := range s.ghost {
 		n.ghost[k] = v
@@ -141,7 +162,11 @@ type Exec struct {
 	pruner    *Pruner
 	probes    []Probe
 	ghostNames []string
+	wfHeaps   map[string]bool
+	lateAxioms []lateAxiom
 	bounded   int // >0: bounded concretisation mode (loop unroll bound)
+	boundedRun bool // bounded stand-in run of a contract with "bounded" clauses
+	boundN    int
 	underBinder int
 	pureCalls map[string]bool
 	usedContracts map[string]bool
@@ -154,7 +179,7 @@ func newExec(prog *Program, db *ContractDB, unit string) *Exec {
 		boxes: map[string]*Value{}, strs: map[string]string{}, notes: map[string]bool{},
 		unmod: map[string]bool{}, assumed: map[string]bool{}, inlined: map[string]bool{},
 		heapSorts: map[string]string{}, globals: map[*ssa.Global]*Cell{}, maxPaths: 4000,
-		oblSeen: map[string]int{}, safety: true, strLens: map[string]int{}, pureCalls: map[string]bool{}, usedContracts: map[string]bool{}}
+		wfHeaps: map[string]bool{}, oblSeen: map[string]int{}, safety: true, strLens: map[string]int{}, pureCalls: map[string]bool{}, usedContracts: map[string]bool{}}
 	return x
 }
 
@@ -261,12 +286,14 @@ func (x *Exec) fieldHeapName(structT types.Type, idx int) (string, string) {
 	st := structT.Underlying().(*types.Struct)
 	name := "F$" + strings.TrimPrefix(x.tc.structName(structT), "S_") + "$" + st.Field(idx).Name()
 	sort := "(Array Int " + x.tc.sortOf(st.Field(idx).Type()) + ")"
+	x.initHeapWF(name, st.Field(idx).Type(), false)
 	return name, sort
 }
 
 func (x *Exec) elemHeapName(elemT types.Type) (string, string) {
 	es := x.tc.sortOf(elemT)
 	name := "H$" + sanitize(es)
+	x.initHeapWF(name, elemT, true)
 	return name, "(Array Int (Array Int " + es + "))"
 }
 
@@ -389,7 +416,7 @@ func (x *Exec) loadField(st *State, ref string, objT types.Type, idx int) Value 
 func (x *Exec) storeField(st *State, ref string, objT types.Type, idx int, v Value) {
 	name, sort := x.fieldHeapName(objT, idx)
 	h := x.heapTerm(st, name, sort)
-	st.heaps[name] = mkStore(h, ref, x.tc.pack(x, v))
+	x.setHeap(st, name, mkStore(h, ref, x.tc.pack(x, v)))
 }
 
 func (x *Exec) loadElem(st *State, rid, idx string, elemT types.Type) Value {
@@ -403,7 +430,7 @@ func (x *Exec) loadElem(st *State, rid, idx string, elemT types.Type) Value {
 func (x *Exec) storeElem(st *State, rid, idx string, elemT types.Type, v Value) {
 	name, sort := x.elemHeapName(elemT)
 	h := x.heapTerm(st, name, sort)
-	st.heaps[name] = mkStore(h, rid, mkStore(mkSelect(h, rid), idx, x.tc.pack(x, v)))
+	x.setHeap(st, name, mkStore(h, rid, mkStore(mkSelect(h, rid), idx, x.tc.pack(x, v))))
 }
 
 func (x *Exec) regionTerm(st *State, rid string, elemT types.Type) string {
@@ -414,7 +441,7 @@ func (x *Exec) regionTerm(st *State, rid string, elemT types.Type) string {
 func (x *Exec) setRegion(st *State, rid string, elemT types.Type, arr string) {
 	name, sort := x.elemHeapName(elemT)
 	h := x.heapTerm(st, name, sort)
-	st.heaps[name] = mkStore(h, rid, arr)
+	x.setHeap(st, name, mkStore(h, rid, arr))
 }
 
 // getPath navigates inside a value.
@@ -583,7 +610,7 @@ func (x *Exec) store(st *State, p Value, v Value, pos token.Pos) {
 		}
 		name, sort := x.opaqueHeap(et)
 		h := x.heapTerm(st, name, sort)
-		st.heaps[name] = mkStore(h, p.S, x.tc.pack(x, v))
+		x.setHeap(st, name, mkStore(h, p.S, x.tc.pack(x, v)))
 		return
 	case KPtr:
 		switch p.B {
